@@ -115,6 +115,7 @@ var (
 	xkeys    [3]map[int]*hdkeychain.ExtendedKey // scope -> key id -> account xpub
 	keyOfPub [3]map[string]int                  // scope -> hex(compressed account pubkey) -> key id
 	desOf    map[string]des                     // address string -> designator
+	addrOf   map[des]btcutil.Address            // designator -> address
 	impKeys  map[int]*hdkeychain.ExtendedKey
 	badKey   *hdkeychain.ExtendedKey
 	template string
@@ -198,6 +199,7 @@ func buildTables() error {
 		}
 	}
 	desOf = map[string]des{}
+	addrOf = map[des]btcutil.Address{}
 	for sc := range scopes {
 		xkeys[sc] = map[int]*hdkeychain.ExtendedKey{}
 		keyOfPub[sc] = map[string]int{}
@@ -236,6 +238,7 @@ func buildTables() error {
 						return fmt.Errorf("address table collision %v / %v", old, des{sc, k, br, i})
 					}
 					desOf[a.String()] = des{sc, k, br, i}
+					addrOf[des{sc, k, br, i}] = a
 				}
 			}
 		}
@@ -334,8 +337,13 @@ func errClass(err error) string {
 	if errors.As(err, &ise) {
 		return "insufficient"
 	}
+	if errors.Is(err, errCommit) {
+		return "commit-failed"
+	}
 	s := err.Error()
 	switch {
+	case strings.Contains(s, "injected commit failure"):
+		return "commit-failed"
 	case strings.Contains(s, "insufficient funds"):
 		return "insufficient"
 	case strings.Contains(s, "notification subscription failed"):
@@ -366,7 +374,8 @@ type coin struct {
 
 type runner struct {
 	dir    string
-	db     walletdb.DB
+	db     walletdb.DB // the real bdb handle
+	fdb    *failDB     // what the wallet sees: commit-failure injection
 	w      *wallet.Wallet
 	fc     *fakeChain
 	u      []*uaddr
@@ -377,6 +386,8 @@ type runner struct {
 	blame  map[[2]int]string // (scope, account) -> last wallet op that created / modified / cached it
 	copies int
 	dryImports int
+	prevBlame  string            // blame of the op's (scope, account) before the op ran
+	taint      map[[2]int]string // sticky blame: account touched by an eager mutator whose commit failed
 }
 
 func (r *runner) Close() {
@@ -413,7 +424,8 @@ func (r *runner) reset() error {
 	if r.db, err = walletdb.Open("bdb", path, true, 10*time.Second, false); err != nil {
 		return err
 	}
-	if r.w, err = wallet.OpenWithRetry(r.db, pubPass, nil, params, 0, 10*time.Millisecond); err != nil {
+	r.fdb = &failDB{inner: r.db}
+	if r.w, err = wallet.OpenWithRetry(r.fdb, pubPass, nil, params, 0, 10*time.Millisecond); err != nil {
 		return err
 	}
 	r.w.Start()
@@ -424,6 +436,7 @@ func (r *runner) reset() error {
 	}
 	r.u, r.uIdx, r.names, r.coins, r.prev = nil, map[string]*uaddr{}, []string{"1"}, nil, nil
 	r.blame = map[[2]int]string{}
+	r.taint = map[[2]int]string{}
 	r.dryImports = 0
 	return nil
 }
@@ -746,6 +759,9 @@ func (r *runner) restartedUnlock() error {
 // ---------------------------------------------------------------- oracle: running wallet vs restarted wallet
 
 func (r *runner) blameOf(sc, a int) string {
+	if b, ok := r.taint[[2]int{sc, a}]; ok {
+		return b
+	}
 	if b, ok := r.blame[[2]int{sc, a}]; ok {
 		return b
 	}
@@ -869,6 +885,9 @@ func (r *runner) expectNext(res *opResult, name string, sc, a, br int, got des) 
 		return
 	}
 	have := fmt.Sprintf("%d.%d", got.key, got.idx)
+	if strings.HasSuffix(r.prevBlame, ".commit-failed") {
+		name = r.prevBlame
+	}
 	if got.sc != sc || got.br != br || have != want {
 		res.viol = append(res.viol, fmt.Sprintf("C08 key=%s.next-address-differs-from-restart: scope %s account %d branch %d: the running wallet issued %s/%s, a restarted wallet would issue %s",
 			name, scopes[sc].name, a, br, scopes[got.sc].name, got, want))
@@ -894,6 +913,23 @@ func (r *runner) Exec(op string) (string, string) {
 	sc := scopeIdx(kv["sc"])
 	a, aok := atoi(kv["a"])
 	var res opResult
+	// cf=1: the commit of the request's database transaction fails (newaddr, newchange, createtx, import, rename)
+	cf := false
+	if v, has := kv["cf"]; has {
+		if !is01(v) {
+			return "bad-op", ""
+		}
+		switch kind {
+		case "newaddr", "newchange", "createtx", "import", "rename":
+			cf = v == "1"
+		}
+	}
+	r.prevBlame = ""
+	if sc >= 0 && aok {
+		r.prevBlame = r.blameOf(sc, a)
+	}
+	r.fdb.arm(cf)
+	defer r.fdb.arm(false)
 	switch kind {
 	case "newaddr", "newchange", "curaddr", "fund":
 		if sc < 0 || !aok {
@@ -980,6 +1016,34 @@ func (r *runner) Exec(op string) (string, string) {
 	default:
 		return "bad-op", ""
 	}
+	if r.fdb.didFire() {
+		// the request's transaction was rolled back at commit time: whatever differs from a restarted wallet from
+		// now on for this account is blamed on "<WalletOp>.commit-failed"
+		who := opName(kind, kv) + ".commit-failed"
+		acct := a
+		if kind == "import" && r.prev != nil {
+			acct = r.prev.last[sc] + 1
+		}
+		r.blame[[2]int{sc, acct}] = who
+		if kind == "import" || kind == "rename" {
+			r.taint[[2]int{sc, acct}] = who
+		} else if r.prev != nil && r.prev.next[sc] != nil {
+			// the address the failed transaction had issued (the caller only got an error): the one a restarted
+			// wallet issues next on that branch; it joins the address universe, blamed on this request
+			br := 1
+			if kind == "newaddr" {
+				br = 0
+			}
+			var k, i int
+			if n, _ := fmt.Sscanf(r.prev.next[sc][[2]int{a, br}], "%d.%d", &k, &i); n == 2 {
+				if addr, ok := addrOf[des{sc, k, br, i}]; ok {
+					r.note(sc, addr, who, false)
+				}
+			}
+		}
+		res.rolledBack = true
+	}
+	r.fdb.arm(false)
 	d, err := r.restarted()
 	if err != nil {
 		return "harness-error " + err.Error(), ""
